@@ -53,6 +53,9 @@ func (r *recProto) AddPipe(p mangos.ProtocolPipe) error {
 	if b.refusePlan[rec.order%len(b.refusePlan)] {
 		rec.addRefused++
 		b.w.Fault("proto-refuse")
+		if b.onReject != nil {
+			b.onReject("protocol refused the pipe")
+		}
 		return mangos.ErrProtoState
 	}
 	err := r.ProtocolBase.AddPipe(p)
@@ -88,6 +91,7 @@ type coreBench struct {
 	nAttached  int
 	dials      []dialEv
 	peers      []*MsgPipe
+	onReject   func(why string)
 }
 
 type dialEv struct {
@@ -121,6 +125,9 @@ func (b *coreBench) hook(ev mangos.PipeEvent, p mangos.Pipe) {
 			w.Fault("reject-hook")
 			w.Probe("pipe-closed-during-attaching")
 			_ = p.Close()
+			if b.onReject != nil {
+				b.onReject("hook closed the pipe during Attaching")
+			}
 		}
 	case mangos.PipeEventAttached:
 		k := b.nAttached
@@ -130,6 +137,9 @@ func (b *coreBench) hook(ev mangos.PipeEvent, p mangos.Pipe) {
 			w.Fault("reject-hook")
 			w.Probe("pipe-closed-during-attached")
 			_ = p.Close()
+			if b.onReject != nil {
+				b.onReject("hook closed the pipe during Attached")
+			}
 		}
 	}
 	e.retAt, e.retSt = w.Now(), w.Step()
